@@ -45,9 +45,9 @@ def check_eq_ord(chk, prog, cfg):
         for tr in ("core::cmp::PartialEq", "core::cmp::Eq", "core::cmp::PartialOrd", "core::cmp::Ord"):
             imps = prog.impl_for(tr, lambda t: t["k"] == "adt" and t["d"] == adt)
             ok = len(imps) == 1 and imps[0]["automatically_derived"] and _derive_builtin(imps[0])
-            chk.expect(ok, "R12.3", "%s:%s" % (short, tr.split("::")[-1]), imps[0]["loc"] if imps else prog.adts[adt]["loc"],
+            chk.expect(ok, "R12.3", "%s:%s" % (short, tr.split("::")[-1]), imps[0]["loc"] if imps else prog.adts[adt]["loc"], kind="UNRECOGNISED" if imps else "VIOLATION", detail=
                        "%d impl(s); derived: %s; by %s" % (len(imps), [i["automatically_derived"] for i in imps],
-                                                         [(e or [{}])[0].get("name") for e in [i["expn"] for i in imps]]), cfg)
+                                                         [(e or [{}])[0].get("name") for e in [i["expn"] for i in imps]]), config=cfg)
 
 
 def _derive_builtin(imp):
